@@ -23,11 +23,17 @@ Plan gen(uint64_t seed, const std::string& tier) {
         Op op;
         if (r.chance(0.7)) {
             op.kind = "tuner";
-            const int64_t fs = r.chance(0.2) ? r.range(8, 40) : r.logi(8, big ? 100000 : 20000);
+            int64_t fs = r.chance(0.2) ? r.range(8, 40) : r.logi(8, big ? 100000 : 20000);
+            const bool huge = r.chance(0.04);
+            if (huge) {
+                fs = r.range(65537, 100000);   // products f*k beyond 2^31 (32-bit phase arithmetic would wrap)
+            }
             double f;
             const int c = int(r.below(8));
             const int64_t half = fs / 2;
-            if (c == 0) {
+            if (huge) {
+                f = double((r.chance(0.5) ? 1 : -1) * r.range(half - 3000, half));
+            } else if (c == 0) {
                 f = 0;
             } else if (c == 1) {
                 f = double(r.chance(0.5) ? half : -half);
